@@ -275,6 +275,14 @@ impl<PF: PatternFusion + 'static> FusionVisitor for PatternFusionVisitor<PF> {
             .iter()
             .map(|name| pat_match.node_id(name))
             .collect();
+        // Literal constants in the pattern match single-element tensors of
+        // any rank, which broadcast against the other operands in the unfused
+        // graph. The fused operator's output has the same shape only if none
+        // of these constants has a higher rank than the inputs.
+        for const_id in pat_match.literal_constants() {
+            check_scalar_rank(graph, const_id, &input_ids)?;
+        }
+
         let fused_op = self.fusion.maybe_fuse(&pat_match, graph)?;
         let fusion = Fusion::from_op(
             op_node.name(),
@@ -285,6 +293,38 @@ impl<PF: PatternFusion + 'static> FusionVisitor for PatternFusionVisitor<PF> {
         );
         Ok(fusion)
     }
+}
+
+/// Check that a single-element constant which a fusion treats as a scalar does
+/// not have a higher rank than the operands it is combined with.
+///
+/// A single-element constant of rank K broadcasts the other operand to (at
+/// least) rank K, so replacing the operator that consumes it with one that
+/// takes a scalar attribute changes the output shape if the operand has a lower
+/// rank. Scalars (rank 0) are always OK. Otherwise the ranks of all operands
+/// must be known.
+fn check_scalar_rank(
+    graph: &Graph,
+    const_id: NodeId,
+    operand_ids: &[Option<NodeId>],
+) -> Result<(), FusionError> {
+    let const_rank = graph
+        .get_rank(const_id)
+        .ok_or(FusionError::CheckFailed("unknown constant rank"))?;
+    if const_rank == 0 {
+        return Ok(());
+    }
+    for operand_id in operand_ids.iter().flatten() {
+        let operand_rank = graph
+            .get_rank(*operand_id)
+            .ok_or(FusionError::CheckFailed("unknown operand rank"))?;
+        if operand_rank < const_rank {
+            return Err(FusionError::CheckFailed(
+                "constant has higher rank than operand",
+            ));
+        }
+    }
+    Ok(())
 }
 
 /// Additional graph querying methods used in fusions.
@@ -633,6 +673,7 @@ impl PatternFusion for SwishFusion {
         let alpha = g
             .get_scalar(alpha_input)
             .ok_or(FusionError::CheckFailed("alpha not a scalar"))?;
+        check_scalar_rank(g, alpha_input, &[pat_match.node_id("x")])?;
         Ok(Swish { alpha })
     }
 }
@@ -913,18 +954,23 @@ impl FusionVisitor for MatMulScaleFusion {
             let lhs_scalar = graph.get_scalar(lhs);
             let rhs_scalar = graph.get_scalar(rhs);
 
-            match op_type {
+            let (scale, scale_id, input) = match op_type {
                 "Mul" => match (lhs_scalar, rhs_scalar) {
-                    (Some(lhs_scale), None) => Some((lhs_scale, rhs)),
-                    (None, Some(rhs_scale)) => Some((rhs_scale, lhs)),
-                    _ => None,
+                    (Some(lhs_scale), None) => (lhs_scale, lhs, rhs),
+                    (None, Some(rhs_scale)) => (rhs_scale, rhs, lhs),
+                    _ => return None,
                 },
                 "Div" => match (lhs_scalar, rhs_scalar) {
-                    (None, Some(rhs_scale)) => Some((1. / rhs_scale, lhs)),
-                    _ => None,
+                    (None, Some(rhs_scale)) => (1. / rhs_scale, rhs, lhs),
+                    _ => return None,
                 },
-                _ => None,
-            }
+                _ => return None,
+            };
+
+            // The scale must not change the rank of the scaled value.
+            check_scalar_rank(graph, scale_id, &[Some(input)]).ok()?;
+
+            Some((scale, input))
         };
 
         // Accumulated scale factor from scalings applied to MatMul inputs
